@@ -222,8 +222,115 @@ def monitors(ctx, tr, res, classes, fair, inp):
     return max_age, len(popped)
 
 
+def packet_consumer_histories(ctx):
+    """correspondence + direct oracle for the LONG-LIVED packet consumer at the byte level: one real
+    GeckoPacketProtocolHandler(async_on_handled=spa._async_on_packet) of a real GeckoAsyncSpa is fed histories of datagrams
+    exactly the way consume() feeds it (can_handle / async_handle / async_handled); what it re-queues is compared with
+    Model/PacketConsumer.lean on the same bytes and with the specification computed independently here."""
+    from geckolib.async_spa import GeckoAsyncSpa
+    from geckolib.async_tasks import AsyncTasks
+    from geckolib.driver import GeckoPacketProtocolHandler
+    rng = ctx.rng
+    desc = rig.Desc()
+    ip, port = desc.destination
+    spa_id, cli = desc.identifier, CLIENT
+
+    def mk(rng):
+        src = rng.choice([spa_id, spa_id, spa_id, b"SPA99:99:99:99:99:99", b"", spa_id + b"x", spa_id[:-1]])
+        dst = rng.choice([cli, cli, cli, b"IOSsomeoneelse", b"", cli.lower()])
+        pay = rng.choice([b"APING\x00", b"RFERR", b"STATP\x01\x00\x10\xaa\xbb", b"", b"x</DATAS>y", b"<DATAS>", b"a</DESCN><DATAS>b", b"\n\x00\xff",
+                          bytes(rng.randrange(256) for _ in range(rng.randrange(0, 12)))])
+        kind = rng.random()
+        if kind < 0.55:
+            d = rig.frame(src, dst, pay)
+        elif kind < 0.65:
+            d = b"<PACKT>" + pay + b"</PACKT>"                                   # outer frame, no inner parts
+        elif kind < 0.72:
+            d = b"<PACKT><SRCCN>" + src + b"</SRCCN><DESCN>" + dst + b"</DESCN>" + pay + b"</PACKT>"      # no DATAS
+        elif kind < 0.78:
+            d = b"<PACKT><SRCCN>" + src + b"</SRCCN><DATAS>" + pay + b"</DATAS></PACKT>"                  # no DESCN
+        elif kind < 0.84:
+            d = rig.frame(src, dst, pay)[:-1]                                       # not claimed: bad close tag
+        elif kind < 0.9:
+            d = pay                                                                 # bare inner datagram: not claimed
+        else:
+            d = b"junk" + rig.frame(src, dst, pay) if rng.random() < 0.5 else rig.frame(src, dst, pay) + b"</PACKT>"
+        sender = rng.choice([(ip, port)] * 6 + [("10.9.9.9", port), (ip, port + 1)])
+        return d, sender
+
+    async def body(loop):
+        out = []
+        for h_i in range(40 if ctx.quick else 600):
+            recorded = []
+
+            class P:
+                def datagram_received(self, data, parms):
+                    recorded.append(data)
+
+            async def on_event(*a, **k):
+                pass
+            spa = GeckoAsyncSpa(CLIENT, desc, AsyncTasks(), on_event)
+            spa._protocol = P()
+            handler = GeckoPacketProtocolHandler(async_on_handled=spa._async_on_packet)
+            hist = [mk(rng) for _ in range(rng.randint(1, 9))]
+            steps = []
+            for d, sender in hist:
+                n0 = len(recorded)
+                try:
+                    if not handler.can_handle(d, sender):
+                        ans = "no-claim"
+                    else:
+                        await handler.async_handle(d, sender)
+                        await handler.async_handled(sender)
+                        new = recorded[n0:]
+                        ans = "drop" if not new else ("requeue " + ("none" if new[0] is None else hx(new[0])) + (" +%d" % (len(new) - 1) if len(new) > 1 else ""))
+                except Exception as e:  # noqa
+                    ans = f"raised {type(e).__name__}"
+                steps.append((d, sender, ans))
+            out.append(steps)
+        return out
+    hists = vloop.run_virtual(body, seed=1)
+    lines, impl = [], []
+    n_rq = 0
+    for steps in hists:
+        lines.append(f"pc-new {hx(ip.encode())} {port} {hx(spa_id)} {hx(cli)}")
+        impl.append("ok")
+        for k, (d, sender, ans) in enumerate(steps):
+            lines.append(f"pc-dg {hx(d)} {hx(sender[0].encode())} {sender[1]}")
+            impl.append(ans)
+            ctx.count("evaluations")
+            # direct oracle (independent of the model): claimed iff outer tags; re-queued iff the inner parts parse and carry
+            # exactly this connection's address and identifier pair; the content is the DATAS text
+            m = re.search(rb"<SRCCN>(.*?)</SRCCN><DESCN>(.*?)</DESCN><DATAS>(.*)</DATAS>", d[7:-8], re.DOTALL)
+            claimed = d.startswith(b"<PACKT>") and d.endswith(b"</PACKT>")
+            if not claimed:
+                want = "no-claim"
+            elif m and sender == (ip, port) and m.group(1) == spa_id and m.group(2) == cli:
+                want = "requeue " + hx(m.group(3))
+                n_rq += 1
+            else:
+                want = "drop"
+            if ans != want:
+                ctx.violation("packet-consumer:" + ("replay" if ans.startswith("requeue") and want == "drop" else "wrong-effect"),
+                              {"kind": "packet-consumer", "history": [[hx(a), list(b)] for a, b, _ in steps[:k + 1]]}, want, ans)
+                break
+    ctx.cov["packet_consumer_histories"] = len(hists)
+    ctx.cov["packet_consumer_requeues"] = n_rq
+    try:
+        model = Driver("Driver/C07.lean").run(lines)
+    except DriverFailure as e:
+        ctx.obligation_broken("driver:C07:packet-consumer", e)
+        return
+    for l, mo, im in zip(lines, model, impl):
+        if mo != im:
+            ctx.obligation_broken("correspondence:packet-consumer-model-vs-implementation", {"op": l[:200], "model": mo[:120], "impl": im[:120]})
+            break
+    ctx.sample({"packet_consumer": [[l[:80], a] for l, a in zip(lines[:4], impl[:4])]})
+
+
 def run(ctx):
     ctx.lean_obligations("GeckoModel.Properties.C07")
+    packet_consumer_histories(ctx)
     rng = ctx.rng
     classes = handler_classes()
     n_runs = 6 if ctx.quick else 60
@@ -317,6 +424,38 @@ def run(ctx):
 def replay(inp):
     from common import Ctx
     ctx = Ctx("C07", "quick", 0)
+    if inp.get("kind") == "packet-consumer":
+        from geckolib.async_spa import GeckoAsyncSpa
+        from geckolib.async_tasks import AsyncTasks
+        from geckolib.driver import GeckoPacketProtocolHandler
+        desc = rig.Desc()
+
+        async def body(loop):
+            recorded = []
+
+            class P:
+                def datagram_received(self, data, parms):
+                    recorded.append(data)
+
+            async def on_event(*a, **k):
+                pass
+            spa = GeckoAsyncSpa(CLIENT, desc, AsyncTasks(), on_event)
+            spa._protocol = P()
+            h = GeckoPacketProtocolHandler(async_on_handled=spa._async_on_packet)
+            last = None
+            for dh, sender in inp["history"]:
+                d = bytes.fromhex(dh) if dh != "-" else b""
+                n0 = len(recorded)
+                if h.can_handle(d, tuple(sender)):
+                    await h.async_handle(d, tuple(sender))
+                    await h.async_handled(tuple(sender))
+                last = (d, tuple(sender), recorded[n0:])
+            return last
+        d, sender, new = vloop.run_virtual(body, seed=1)
+        m = re.search(rb"<SRCCN>(.*?)</SRCCN><DESCN>(.*?)</DESCN><DATAS>(.*)</DATAS>", d[7:-8], re.DOTALL)
+        ok = d.startswith(b"<PACKT>") and d.endswith(b"</PACKT>") and m and sender == desc.destination and m.group(1) == desc.identifier and m.group(2) == CLIENT
+        want = [m.group(3)] if ok else []
+        return new != want, {"requeued_by_last_datagram": [hx(x) if x is not None else None for x in new], "expected": [hx(x) for x in want]}
     arrivals = [(ms, bytes.fromhex(d) if d != "-" else b"", lab) for ms, d, lab in inp["arrivals"]]
     res = run_connection(arrivals, inp["seed"], shuffle=True, jitter=0.0 if inp["fair"] else 0.03, horizon_s=11.0)
     monitors(ctx, res["trace"], res, handler_classes(), inp["fair"], inp)
